@@ -8,6 +8,12 @@ VERIF = build.VERIF
 
 HEVAL_PROPS = {'C02', 'C03', 'C04', 'C05', 'C06', 'C07', 'C08', 'C09', 'C10', 'C11', 'C13', 'C16', 'C17', 'C18'}
 
+BOUNDS_C01 = ('H-IND: one inductive step from every history/file state satisfying the invariant Sound (DESIGN.md 5.4) on all DAGs on <=3 jobs x '
+              'all kind assignments under string comparison and under an arbitrary equivalence relation as comparison, curated 4-job shapes, and the '
+              'stale-record / renamed multi-output universes of H-HIST; job behaviours are uninterpreted functions of consumed contents (per job and '
+              'input list), Always outputs fresh per evaluation; every schedule, failure subset and abort point; an invariant failure is followed '
+              'by a second, failure-free evaluation from the returned history and reported only if that produces a wrong result')
+
 BOUNDS_HEVAL = {
     'quick': 'all DAGs on <=3 jobs x all 3^N kind assignments under S-test (string inequality, real MIR of StrategyForTesting) '
              'and S-rel (comparison = arbitrary equivalence relation); 6 curated 4-job shapes under S-test; one evaluation from '
@@ -41,6 +47,8 @@ def sources_for(prop):
         return [('H-ORDER', lambda G: G['prop'] == 'C14', None)]
     if prop == 'C12':
         return [('H-EVAL2', lambda G: True, None)]
+    if prop == 'C01':
+        return [('H-IND', lambda G: G['prop'] == 'C01', None)]
     if prop == 'C15':
         # comparison-specific violations only: seen under S-rel / S-prod and not under string inequality
         rel_only = lambda G: 'ident' not in G.get('modes', [])
@@ -73,7 +81,9 @@ def run_property(prop, tier, seed, mod, bins, dt, log):
                 continue
             for exm in g['examples'][:2]:
                 cprop = g['prop'] if reprop == 'group' else prop
-                if exm.get('chain'):
+                if g['prop'] == 'C01':
+                    ok, why, native = confirm_c01(mod, bins, exm)
+                elif exm.get('chain'):
                     ok, why, native = confirm_chain(mod, bins, exm, g['prop'])
                 elif g['prop'] == 'C14':
                     ok, why, native = confirm_pair(mod, bins, exm)
@@ -88,7 +98,7 @@ def run_property(prop, tier, seed, mod, bins, dt, log):
                 path = os.path.join(outdir, 'cex-%d.json' % n)
                 rec_json = {'property': prop, 'what': exm['what'], 'group': gk, 'count_in_exploration': g['count'],
                             'scenario': exm['scenario'], 'path_condition': exm.get('pc'), 'native_trace': native, 'family': family}
-                for kx in ('scenario2', 'scenario3', 'chain'):
+                for kx in ('scenario2', 'scenario3', 'chain', 'c01', 'kind'):
                     if kx in exm:
                         rec_json[kx] = exm[kx]
                 json.dump(rec_json, open(path, 'w'), indent=1)
@@ -214,6 +224,47 @@ def confirm_chain(mod, bins, exm, prop):
     return False, 'no native oracle for %s chains' % prop, native
 
 
+def confirm_c01(mod, bins, exm):
+    """C01: the evaluation(s) replay natively exactly as predicted (same offers, dispositions, returned history; the
+    second evaluation starts from the history the first returned natively); the last one finishes without failed or
+    upstream-failed jobs with the job in question executed / skipped as predicted; its result then differs from the
+    clean-build reference under the solver's interpretation of the job behaviours (values recorded in the file)"""
+    sc1 = S.Scenario.from_json(exm['scenario'])
+    n1, err = native_checked(mod, bins, sc1)
+    if n1 is None:
+        return False, err, []
+    native = list(n1)
+    last_sc, last_n = sc1, n1
+    if exm.get('chain'):
+        sc2 = S.Scenario.from_json(exm['scenario2'])
+        h1 = {}
+        for l in n1:
+            f = l.split('\t')
+            if f[0] == 'H':
+                h1[S.unesc(f[1])] = S.unesc(f[2]) if len(f) > 2 else ''
+        if h1 != sc2.hist:
+            return False, 'history returned natively by the first evaluation is not the one predicted for the second: %r vs %r' % (sorted(h1.items()), sorted(sc2.hist.items())), n1
+        n2, err = native_checked(mod, bins, sc2)
+        if n2 is None:
+            return False, err, n1
+        native = n1 + ['--- next evaluation'] + n2
+        last_sc, last_n = sc2, n2
+    ev = [l.split('\t') for l in last_n if l.startswith('E\t')]
+    if not ev or any(not f[3].startswith('ok') for f in ev):
+        return False, 'a call of the last evaluation was not accepted natively', native
+    fin = ev[-1]
+    d = dict(x.split('=', 1) for x in fin[4:] if '=' in x)
+    if d.get('fin') != '1' or d.get('failed') or d.get('uf'):
+        return False, 'last evaluation did not finish failure-free natively', native
+    info = exm['c01']
+    started = set(e[1] for e in last_sc.events if e[0] == 'run')
+    if (info['job'] in started) != bool(info['executed']):
+        return False, 'job %s executed/skipped differently than predicted' % info['job'], native
+    if info['result_value'] == info['clean_value']:
+        return False, 'result equals the clean-build reference in the model', native
+    return True, 'reproduced', native
+
+
 def confirm_pair(mod, bins, exm):
     """C14: both schedules replay natively exactly as predicted and their final outcomes differ on the real crate"""
     sc1 = S.Scenario.from_json(exm['scenario'])
@@ -296,7 +347,7 @@ def write_evidence(prop, tier, seed, out):
             'obligations_decided_by_pc_literal_evaluation': res['by_eval'],
             'solver': res['solver'], 'mir_blocks_executed': res['mir_blocks'],
             'per_family': res['per_family'], 'monitor_stats': res['mon_stats'],
-            'bounds': BOUNDS_HEVAL[tier],
+            'bounds': BOUNDS_C01 if prop == 'C01' else BOUNDS_HEVAL[tier],
             'outside_the_claim': 'graphs with more than 3 jobs except the curated 4-job shapes; chains of evaluations other than through '
                                  'the one-step history invariant; hash iteration order; the python driver',
             'difftest': {'chains': dt['chains'], 'scenarios': dt['scenarios'], 'events': dt['events'], 'mismatches': len(dt['mismatches'])},
